@@ -31,9 +31,11 @@ VARIABLES sc
 Init == sc = [depth |-> 0]
 Pick == sc.depth = 0 /\
   \E depth \in 1..3, pos \in {"first", "mid", "last"}, l1 \in Locs, l2 \in Locs, l3 \in Locs,
-     decoy \in {"none", "cwd", "other"}, cwd \in Cwds, rel \in BOOLEAN, quoted \in BOOLEAN :
+     decoy \in {"none", "cwd", "other"}, cwd \in Cwds, rel \in BOOLEAN, quoted \in BOOLEAN, again \in {"no", "twice", "diamond"} :
        /\ (depth < 2 => l2 = "same") /\ (depth < 3 => l3 = "same")
-       /\ sc' = [depth |-> depth, pos |-> pos, l1 |-> l1, l2 |-> l2, l3 |-> l3, decoy |-> decoy, cwd |-> cwd, rel |-> rel, quoted |-> quoted]
+       /\ (again = "diamond" => depth >= 2 /\ l1 = "same" /\ l2 = "same")    \* main reaches b.asm both through a.asm and directly
+       /\ (again # "no" => decoy = "none" /\ ~quoted /\ cwd \in {"proj", "other"})
+       /\ sc' = [depth |-> depth, pos |-> pos, l1 |-> l1, l2 |-> l2, l3 |-> l3, decoy |-> decoy, cwd |-> cwd, rel |-> rel, quoted |-> quoted, again |-> again]
 Next == Pick
 Spec == Init /\ [][Next]_sc
 
@@ -42,8 +44,12 @@ IncLine(loc, name) == Inc("include " \o (IF sc.quoted THEN "\"" \o WrittenText(l
 D1 == DirOf(sc.l1, "proj")
 D2 == DirOf(sc.l2, D1)
 D3 == DirOf(sc.l3, D2)
-MainLines == LET b == Body(0) i == IncLine(sc.l1, Names[1]) IN
-             CASE sc.pos = "first" -> <<i>> \o b [] sc.pos = "mid" -> SubSeq(b, 1, 2) \o <<i>> \o SubSeq(b, 3, 4) [] OTHER -> b \o <<i>>
+\* "twice": the main file includes a.asm a second time at its end; "diamond": it also includes b.asm directly
+MainLines == LET b == Body(0) i == IncLine(sc.l1, Names[1])
+                 base == CASE sc.pos = "first" -> <<i>> \o b [] sc.pos = "mid" -> SubSeq(b, 1, 2) \o <<i>> \o SubSeq(b, 3, 4) [] OTHER -> b \o <<i>>
+             IN CASE sc.again = "twice" -> base \o <<i>>
+                  [] sc.again = "diamond" -> base \o <<IncLine("same", Names[2])>>
+                  [] OTHER -> base
 F1Lines == IF sc.depth >= 2 THEN <<Body(1)[1], IncLine(sc.l2, Names[2])>> \o SubSeq(Body(1), 2, 4) ELSE Body(1)
 F2Lines == IF sc.depth >= 3 THEN Body(2) \o <<IncLine(sc.l3, Names[3])>> ELSE Body(2)
 DecoyDir == IF sc.decoy = "cwd" THEN (IF sc.cwd = "." THEN "." ELSE sc.cwd) ELSE "other"
